@@ -919,6 +919,17 @@ class Summary(object):
                         lv.items.append((conj(pc, g), n))
                 env[target.id] = lv
                 return
+            if isinstance(value, ast.IfExp) and isinstance(value.body, ast.List) and isinstance(value.orelse, ast.List) and not aug \
+                    and target.id in _list_built(self._cur_frame.func):
+                # attrs = [(k, v)] if c else []
+                c = self.cond(self.prep(value.test, env, pc, fr), env, fr, pc)
+                lv = ListVal()
+                for arm, g0 in ((value.body, c), (value.orelse, neg(c))):
+                    for e in arm.elts:
+                        for g, n in self.alts(e, env, conj(pc, g0)):
+                            lv.items.append((conj(pc, g0, g), n))
+                env[target.id] = lv
+                return
             if isinstance(value, ast.Name) and isinstance(env.get(value.id), ListVal) and not aug:
                 env[target.id] = env[value.id]
                 return
